@@ -397,12 +397,15 @@ snarf_shift(const char *spec)
 	int b = 0, d = 0;
 	char *on = NULL;
 	long int tmp;
+	bool neg;
 
 more:
 	tmp = strtol(spec, &on, 10);
 	if (UNLIKELY(on == NULL)) {
 		return 0;
 	}
+	/* -0 has a direction too */
+	neg = *spec == '-';
 	spec = on;
 	switch (*spec++) {
 	case 'b':
@@ -421,6 +424,8 @@ more:
 			goto again;
 		case '-':
 			sem |= (tmp < 0) << 1U;
+			/* 0B- goes back like -0B */
+			neg |= !tmp;
 			goto again;
 		case ',':
 			b += tmp;
@@ -428,7 +433,7 @@ more:
 		default:
 			return 0;
 		}
-		sem |= b < 0;
+		sem |= b < 0 || !b && neg;
 		sem |= !b << 1U;
 		b = b >= 0 ? b : -b;
 		break;
